@@ -24,7 +24,7 @@ ASSUMPTIONS = ["cost comparison uses the independent reference cost (C06 oracle)
 ANCHORS = ["BaseLoss.fit", "BaseLoss.cost", "BaseLoss.sensitivity"]
 # a fit whose optimiser walks into a region where the sensitivity system is extremely stiff can integrate for hours (seen in the
 # tiny-parameter lane: the step leaves the 1e-8-wide box scale); the watchdog makes that case inconclusive, it is not a verdict
-CASE_TIMEOUT = {"default": 400, "tiny-parameter": 150}
+CASE_TIMEOUT = {"default": 200, "tiny-parameter": 150}
 
 
 def plan(tier):
